@@ -520,6 +520,23 @@ def observe(v) -> str:
     return repr(v)
 
 
+def freeze(a):
+    """(what is logged for an argument, the value the callee goes on with): iterators are drained for the log and
+    replaced by an iterator over the same items"""
+    if isinstance(a, collections.abc.Iterator):
+        items = [freeze(x) for x in a]
+        return Iter([x[0] for x in items]), iter([x[1] for x in items])
+    if isinstance(a, (list, tuple)):
+        items = [freeze(x) for x in a]
+        return type(a)(x[0] for x in items), type(a)(x[1] for x in items)
+    if isinstance(a, dict):
+        items = [(k, freeze(v)) for k, v in a.items()]
+        return {k: v[0] for k, v in items}, {k: v[1] for k, v in items}
+    if isinstance(a, (set, frozenset)):
+        return set(a), set(a)
+    return a, a
+
+
 class Raised(Exception):
     pass
 
@@ -528,8 +545,9 @@ def make_stubs(log):
     def stub(i):
         def f(*args):
             r = len(log)
-            log.append((i, [snapshot(copy.deepcopy(a)) if not isinstance(a, collections.abc.Iterator) else snapshot(a)
-                            for a in args]))
+            frozen = [freeze(a) for a in args]
+            log.append((i, [x[0] for x in frozen]))
+            args = [x[1] for x in frozen]
             a0 = args[0] if args else None
             isnum = isinstance(a0, int)
             if i == 0:
@@ -564,9 +582,12 @@ def run_prog(src: str, bindings: dict):
     except Exception as e:  # noqa
         return ("exc", type(e).__name__), log
     out = {}
-    for k, v in env.items():
-        if k not in stubs:
-            out[k] = snapshot(v)
+    try:
+        for k, v in list(env.items()):
+            if k not in stubs:
+                out[k] = snapshot(v)      # consumes the iterators that are still around (their calls are logged now)
+    except Exception as e:  # noqa
+        return ("exc", "late:" + type(e).__name__), log
     return ("ok", out), log
 
 
